@@ -265,6 +265,35 @@ func runC03(r *core.Run) {
 			r.AddEvals(nb * 4)
 			r.NTCount(nb - 1)
 		}
+		// successive calls with nearly equal arguments (a result memo keyed too coarsely shows only here)
+		{
+			rg := core.NewRNG(r.Seed, "C03", "neardup", s.Name)
+			var nb int64
+			for i := 0; i < 4000; i++ {
+				a := [3]float32{float32(rg.Uniform(-0.2, 1.2)), float32(rg.Uniform(-0.2, 1.2)), float32(rg.Uniform(-0.2, 1.2))}
+				_ = s.ToXYZ(linear.RGB{R: a[0], G: a[1], B: a[2]})
+				_ = s.FromXYZ(ciexyz.Color{X: a[0], Y: a[1], Z: a[2]})
+				b := a
+				ch := rg.Intn(3)
+				switch rg.Intn(4) {
+				case 0:
+					b[ch] = math.Nextafter32(b[ch], 2)
+				case 1:
+					b[ch] += 1e-6
+				case 2:
+					b[ch] += 1e-4
+				case 3:
+					b[ch] -= 3e-5
+				}
+				kind, msg, _ := c03Point(s, &p, b)
+				nb++
+				if kind != "" {
+					r.Violate("point", s.Name+"/"+kind+"/after-near-duplicate", msg+fmt.Sprintf(" (called right after the same conversion of %v)", a), c03Case{s.Name, kind, b})
+				}
+			}
+			r.AddEvals(nb * 4)
+			r.NTCount(nb)
+		}
 		// random out-of-range triples
 		shards := 16
 		res2 := make([]float64, shards)
